@@ -195,8 +195,144 @@ def make_fastpath():
     return factory
 
 
+# ---------------------------------------------------------------- slow path: primary rendering == plain Jinja render
+BLOCKS = ["a ", "\n", "{{ x }}", "{{ y }}", "{{- x }} ", " {{ x -}} ", "{% if x %}b{% endif %}", "{% if y %}c{% else %}d{% endif %}",
+          "{% for i in y %}{{ i }},{% endfor %}", "{# k #}", "{% set z = x %}", "{{ z }}", "{{ u }}", "{% if x is defined %}e{% endif %}"]
+XS = ["<absent>", 0, 1, "", "v", False]
+YS = ["<absent>", [], [1, 2], "w"]
+
+
+def plain_jinja(src, ctx):
+    """Jinja itself, configured like sqlfluff's environment but with none of sqlfluff's context manipulation."""
+    import jinja2
+    from jinja2.sandbox import SandboxedEnvironment
+    env = SandboxedEnvironment(keep_trailing_newline=True, extensions=["jinja2.ext.do"])
+    return env.from_string(src).render(**ctx)
+
+
+class RefStandIn:
+    """Independent model of what sqlfluff documents for an undefined variable: renders as nothing, any attribute / item /
+    call gives another stand-in, iterating gives one stand-in. (It is therefore truthy and 'defined': known finding F25.)"""
+
+    def __str__(self):
+        return ""
+
+    def __getattr__(self, k):
+        if k.startswith("__"):
+            raise AttributeError(k)
+        return RefStandIn()
+
+    def __getitem__(self, k):
+        return RefStandIn()
+
+    def __call__(self, *a, **k):
+        return RefStandIn()
+
+    def __iter__(self):
+        yield RefStandIn()
+
+
+def undefined_names(src, ctx):
+    import jinja2
+    from jinja2 import meta
+    env = jinja2.Environment(extensions=["jinja2.ext.do"])
+    return sorted(meta.find_undeclared_variables(env.parse(src)) - set(ctx))
+
+
+def reference(src, ctx, excluded):
+    und = undefined_names(src, ctx)
+    if und and "F25" in excluded:
+        return plain_jinja(src, {**ctx, **{k: RefStandIn() for k in und}})
+    return plain_jinja(src, ctx)
+
+
+def known_f25(entry):
+    src, ctx = entry["replay"]["source"], entry["replay"].get("context", {})
+    got, errs = primary_render(src, ctx)
+    exp = plain_jinja(src, ctx)
+    return None if got == exp else f"template {src!r} with context {ctx}: sqlfluff lints {got!r} (templating errors reported: {len(errs)}) but Jinja renders {exp!r}"
+
+
+KNOWN = {"F25": known_f25}
+
+
+def primary_render(src, ctx):
+    t = JinjaTemplater(override_context=dict(ctx))
+    tf, errs = t.process(in_str=src, fname="f.sql", config=FluffConfig(overrides={"dialect": "ansi", "templater": "jinja"}))
+    return (tf.templated_str if tf is not None else None), errs
+
+
+def _active_known():
+    """The known findings of C08 that are listed AND still reproduce (same rule as lib.main applies before the search)."""
+    from lib import runner
+    act = set()
+    for k in runner.load_known("C08"):
+        if k.get("status") == "known" and k["id"] in KNOWN:
+            try:
+                if KNOWN[k["id"]](k):
+                    act.update(k.get("patterns", [k["id"]]))
+            except Exception:
+                pass
+    return frozenset(act)
+
+
+def make_render(n_blocks):
+    def factory(excluded=frozenset()):
+        def harness(c):
+            from symlite.values import choose, fresh_int
+            from symlite.core import Abort
+            n = int(fresh_int(c, "n_blocks", 1, n_blocks))
+            src = "".join(choose(c, f"block{i}", BLOCKS) for i in range(n))
+            x, y = choose(c, "x_value", XS), choose(c, "y_value", YS)
+            ctx = {k: v for k, v in (("x", x), ("y", y)) if not (isinstance(v, str) and v == "<absent>")}
+            try:
+                exp = reference(src, ctx, excluded)
+            except Exception:
+                raise Abort()   # Jinja itself rejects template+context: outside the property
+            got, errs = primary_render(src, ctx)   # REAL
+            if "x" in ctx and not ctx["x"]:
+                c.witness("falsy_defined_variable")
+            if "{{ u }}" in src or "x" not in ctx:
+                c.witness("undefined_variable")
+            if "{%" in src:
+                c.witness("block_tags")
+            return got == exp
+        return harness
+    return factory
+
+
+def replay_render(cex, excluded=frozenset()):
+    n = int(cex.get("n_blocks", 1))
+    src = "".join(BLOCKS[int(cex.get(f"block{i}", 0))] for i in range(n))
+    x, y = XS[int(cex.get("x_value", 0))], YS[int(cex.get("y_value", 0))]
+    ctx = {k: v for k, v in (("x", x), ("y", y)) if not (isinstance(v, str) and v == "<absent>")}
+    try:
+        exp = reference(src, ctx, _active_known())
+    except Exception:
+        return None
+    try:
+        got, errs = primary_render(src, ctx)
+    except Exception as e:
+        return f"template {src!r} with context {ctx}: Jinja renders {exp!r}, the jinja templater raises {type(e).__name__}: {str(e)[:100]}"
+    return None if got == exp else f"template {src!r} with context {ctx}: sqlfluff lints {got!r} but Jinja renders {exp!r}"
+
+
 def units(tier, seed):
+    nb = 2 if tier == "quick" else 3
     return [
+        Unit(name=f"c08.render_vs_jinja[<= {nb} blocks]",
+             functions=["sqlfluff.core.templaters.jinja.JinjaTemplater.process/construct_render_func/_init_undefined_tracking/get_context",
+                        "sqlfluff.core.templaters.slicers.tracer.JinjaAnalyzer.analyze / JinjaTracer.trace (final render)"],
+             bounds={"template": f"every concatenation of <= {nb} blocks from {BLOCKS}", "x": [str(v) for v in XS], "y": [str(v) for v in YS]},
+             make=make_render(nb), replay=replay_render,
+             stubs=["none: real templater; reference = a plain jinja2 SandboxedEnvironment(keep_trailing_newline, ext.do) render of "
+                    "the same text with the same context; template and context are solver-forked"],
+             assumptions=["template+context pairs that Jinja itself cannot render are outside",
+                          "while known finding F25 is listed, templates that reference an undefined variable are compared with Jinja "
+                          "rendering the same text with the documented stand-in object (renders as nothing, iterates once) instead"],
+             outside=["macros/libraries/dbt builtins", "templates outside this block alphabet"],
+             witnesses_required=["falsy_defined_variable", "undefined_variable", "block_tags"], sharded=True,
+             timeout_s=600 if tier == "quick" else 3000),
         Unit(name="c08.fastpath_gate",
              functions=["sqlfluff.core.templaters.jinja.JinjaTemplater.process (fast-path re.search literal, read from the AST)",
                         "JinjaTemplater._get_jinja_env (live Environment delimiters)", "Linter._normalise_newlines (regex from the AST)"],
